@@ -99,7 +99,7 @@ class Pairs(HypPart):
                 x, cont = t.choice([('a | b', '-|-\n1 | 2'), ('Foo', '==='), ('Foo', '---'), ('[r]: /u', '"t"'), ('x | y', ':-|-:'),
                                     ('- a', '  b'), ('> q', '> r'), ('<div>', 'c'), ('```', 'code\n```')])
                 a = t.choice(['text\n' + x, 'p\n\ntext\n' + x + '\nmore', x]) + t.choice(['', '\n'])
-                b = x + '\n' + cont + '\n'
+                b = t.choice(['intro\n', 'intro\n', '']) + x + '\n' + cont + '\n'        # (also as a line that interrupts B's first paragraph)
             yield {'a': a, 'b': b, 'tokens': t.choice(['Html', 'bare', 'Html'])}
 
     def check(self, case):
